@@ -144,6 +144,31 @@ def r2_holder(ctx):
         kinds.check_who_may(ctx, "C04.R2", "writer of " + field.split("::")[-1], set(w), allow, locs)
 
 
+def r2b_holder_after_acquire(ctx):
+    """The holder record is set only after the semaphore was acquired (or on the closed/poison branch, which yields instead),
+    and every guard Drop clears / removes its holder entry on every path."""
+    prog = ctx.prog
+    SEMP = "shuttle_engine::future::batch_semaphore::BatchSemaphore::"
+    ACQ = {SEMP + "acquire_blocking", SEMP + "try_acquire", kinds.SWITCH}
+    for f, field in ((M + "Mutex::lock", M + "MutexState.holder"), (M + "Mutex::try_lock", M + "MutexState.holder"),
+                     (R + "RwLock::lock", R + "RwLockState.holder"), (R + "RwLock::try_lock", R + "RwLockState.holder")):
+        b = ctx.body(f, "C04.R2")
+        ws = [s for s, st in b.assigns() if kinds.last_field(st["dst"]) == field]
+        ctx.floor("C04.R2", "holder writes in " + f, len(ws), 1)
+        bad = [s for s in ws if kinds.must_precede(prog, b, s, ACQ) is not None]
+        ctx.ob("C04.R2", "holder-after-acquire|" + f, not bad,
+               "`%s` records the holder only after the semaphore was acquired (or after yielding on the poison branch)" % f if not bad else
+               "`%s` records the holder at %s before acquiring: a task that then fails to acquire is left recorded as holder" % (f, b.loc(bad[0])), loc=b.loc())
+    for g, dk in GUARDS.items():
+        b = prog.get(dk)
+        if b is None:
+            continue
+        field = (M + "MutexState.holder") if "mutex" in g else (R + "RwLockState.holder")
+        touches = lambda s: kinds.mentions_field(b, s, field) and not b.in_tracing(s)
+        w = b.path_exists(None, b.is_return, touches)
+        ctx.ob("C04.R2", "drop-updates-holder|" + g, w is None, "Drop of `%s` updates the holder record on every path" % g.split("::")[-1], loc=b.loc())
+
+
 A = "shuttle_std::sync::atomic::Atomic"
 OPS = [A + "::load", A + "::store", A + "::swap", A + "::fetch_update"]
 TOUCH = set(OPS) | {A + "::new", A + "::get_mut", A + "::into_inner", A + "::raw_load"}
@@ -253,4 +278,4 @@ def r4_poison(ctx):
            "panicking branch of release may unblock a task at %s" % rel.loc(bad[0]), loc=rel.loc(ss[0]))
 
 
-RULES = [("C04.R1", r1_accounting), ("C04.R2", r2_holder), ("C04.R3", r3_atomics), ("C04.R4", r4_poison)]
+RULES = [("C04.R1", r1_accounting), ("C04.R2", r2_holder), ("C04.R2", r2b_holder_after_acquire), ("C04.R3", r3_atomics), ("C04.R4", r4_poison)]
